@@ -292,6 +292,7 @@ struct Exec {
     }
 
     void check_files(Op &op, int opi);
+    void check_hints(const MFile &f, const cdf::File &d, int ncid, int slot, int opi);
 
     void run_op(int opi) {
         Op &op = c.p->ops[opi];
@@ -579,6 +580,43 @@ void Exec::do_wait(Op &op, int opi, bool cancel) {
 }
 
 // ---- raw-image oracles (run by rank 0 while every rank is parked at the checkpoint)
+// effective hints (C10): what ncmpi_inq_file_info reports must be the user's setting (environment form wins over the MPI_Info form) and must be
+// what the layout of a freshly created file shows.  Precedence of the alignment settings as documented at ncmpio__enddef().
+void Exec::check_hints(const MFile &f, const cdf::File &d, int ncid, int slot, int opi) {
+    std::map<std::string, std::string> user;
+    for (int i = opi - 1; i >= 0; i--) { const Op &o = c.p->ops[i]; if (!o.skip && o.kind == OP_CREATE && o.file == slot) { user = o.hints; break; } }
+    { auto e = c.p->cfg.sim.env.find("PNETCDF_HINTS"); if (e != c.p->cfg.sim.env.end()) { std::string h = e->second; size_t pos = 0; while (pos < h.size()) { size_t sc = h.find(';', pos); if (sc == std::string::npos) sc = h.size(); std::string kv = h.substr(pos, sc - pos); size_t eq = kv.find('='); if (eq != std::string::npos) user[kv.substr(0, eq)] = kv.substr(eq + 1); pos = sc + 1; } } }
+    MPI_Info info = MPI_INFO_NULL; int rc = ncmpi_inq_file_info(ncid, &info);
+    if (rc != NC_NOERR || info == MPI_INFO_NULL) { fail("hint-report", opi, f.path + ": ncmpi_inq_file_info failed: " + std::to_string(rc)); return; }
+    auto rep = [&](const char *k, std::string &out) { char v[MPI_MAX_INFO_VAL + 1]; int flag = 0; MPI_Info_get(info, k, MPI_MAX_INFO_VAL, v, &flag); if (flag) out = v; return flag != 0; };
+    auto uval = [&](const char *k) -> long long { auto it = user.find(k); if (it == user.end()) return 0; long long x = atoll(it->second.c_str()); return x > 0 ? x : 0; };
+    auto rnd4 = [](long long x) { return (x + 3) / 4 * 4; };
+    bool anyfix = false, anyrec = false; long long first_fix = -1, begin_rec = -1, end_fix = d.header_len;
+    for (auto &v : d.vars) { if (v.isrec) { anyrec = true; if (begin_rec < 0 || v.begin < begin_rec) begin_rec = v.begin; } else { anyfix = true; if (first_fix < 0 || v.begin < first_fix) first_fix = v.begin; end_fix = std::max(end_fix, v.begin + (v.nelems_per_rec * cdf::type_size(v.type) + 3) / 4 * 4); } }
+    long long Uh = uval("nc_header_align_size"), Uv = uval("nc_var_align_size"), Ur = uval("nc_record_align_size");
+    // header alignment: an explicit setting (hint nc_header_align_size, else hint nc_var_align_size, else the v_align argument) must be the one in force;
+    // without any, the library may choose (512 by default, or the record alignment when there is no fixed-size variable): then the reported value only has to be honoured by the layout
+    long long expH = Uh ? Uh : Uv ? Uv : f.ed[1] > 0 ? f.ed[1] : 0;
+    long long expR = Ur ? Ur : f.ed[3] > 0 ? f.ed[3] : 4;
+    expH = rnd4(expH); expR = rnd4(expR);
+    std::string s;
+    long long H = rep("nc_header_align_size", s) ? atoll(s.c_str()) : -1, R = rep("nc_record_align_size", s) ? atoll(s.c_str()) : -1;
+    if (expH == 0) { if (H < 4 || H % 4) fail("hint-report", opi, f.path + ": nc_header_align_size reported " + std::to_string(H)); expH = std::max<long long>(H, 4); }
+    if (H != expH) fail("hint-report", opi, f.path + ": nc_header_align_size reported " + std::to_string(H) + ", the settings dictate " + std::to_string(expH));
+    if (R != expR) fail("hint-report", opi, f.path + ": nc_record_align_size reported " + std::to_string(R) + ", the settings dictate " + std::to_string(expR));
+    if (anyfix && first_fix % expH) fail("hint-layout", opi, f.path + ": the first fixed-size variable begins at " + std::to_string(first_fix) + ", not a multiple of the header alignment " + std::to_string(expH) + " in force");
+    if (anyrec && begin_rec % expR) fail("hint-layout", opi, f.path + ": the record section begins at " + std::to_string(begin_rec) + ", not a multiple of the record alignment " + std::to_string(expR) + " in force");
+    if (anyfix && first_fix < d.header_len + f.ed[0]) fail("hint-layout", opi, f.path + ": header free space " + std::to_string(first_fix - d.header_len) + " < requested h_minfree " + std::to_string(f.ed[0]));
+    if (anyrec && begin_rec < end_fix + f.ed[2]) fail("hint-layout", opi, f.path + ": free space before the record section " + std::to_string(begin_rec - end_fix) + " < requested v_minfree " + std::to_string(f.ed[2]));
+    // value hints: reported == set (valid values only are generated)
+    for (const char *k : {"nc_in_place_swap", "nc_ibuf_size", "nc_hash_size_dim", "nc_hash_size_var", "nc_hash_size_gattr", "nc_hash_size_vattr", "nc_num_aggrs_per_node"}) {
+        auto it = user.find(k); if (it == user.end()) continue;
+        if (!rep(k, s)) { fail("hint-report", opi, f.path + ": hint " + k + " was set but is not reported"); continue; }
+        if (s != it->second) fail("hint-report", opi, f.path + ": hint " + std::string(k) + " was set to '" + it->second + "' but '" + s + "' is reported");
+    }
+    MPI_Info_free(&info);
+}
+
 void Exec::check_files(Op &op, int opi) {
     const Model &m = *op.msnap;
     auto check_one = [&](const MFile &f, bool open) {
@@ -603,6 +641,7 @@ void Exec::check_files(Op &op, int opi) {
                 if (first < 0 && he < d.header_len) fail("report-header-extent", opi, f.path + ": header extent smaller than header");
                 bool anyrec = false; for (auto &dv : d.vars) anyrec = anyrec || dv.isrec;
                 if (anyrec && rs != d.recsize) fail("report-recsize", opi, f.path + ": ncmpi_inq_recsize = " + std::to_string((long long)rs) + " but the record size by the format rule is " + std::to_string(d.recsize));
+                if (c.o.check_hints && f.first_layout) check_hints(f, d, ncid, slot, opi);
                 for (size_t i = 0; i < d.vars.size(); i++) { MPI_Offset off = -1; ncmpi_inq_varoffset(ncid, (int)i, &off); if (off != d.vars[i].begin) fail("report-varoffset", opi, f.path + ": ncmpi_inq_varoffset('" + d.vars[i].name + "') = " + std::to_string((long long)off) + " but begin in the file is " + std::to_string(d.vars[i].begin)); }
             }
         }
